@@ -60,13 +60,29 @@ def run(ck):
     ck.cov["wsp_join"] = {"victim_channel": wj["victim_channel"], "attacker_channel": wj["attacker_channel"], "joins_answered_200": wj["joined"]}
     if wj["foreign_media"]:
         ck.violation("C11:wsp-data-channel-joins-another-user's-session", wj.get("how", ""), wj)
+    # a WebSocket on a segment-shaped URL is bound to another stream than the one the segment rule authorises
+    out4 = os.path.join(ck.tmp, "c11_wsts.json")
+    ck.run_driver("./c11", "^TestWsSegmentPath$", {"VERIF_OUT": out4})
+    ws = ck.read_result(out4)
+    if not ws["own_stream_plays"]:
+        raise Infra("segment-path leg: u3 cannot play its own stream")
+    if ws["foreign"]:
+        ck.violation("C11:websocket-on-segment-url-bound-to-another-stream", ws["foreign"], ws)
+    # a path that climbs with '..' is authorised as the stream it resolves to
+    out5 = os.path.join(ck.tmp, "c11_dd.json")
+    ck.run_driver("./c11", "^TestDotDotPath$", {"VERIF_OUT": out5})
+    dd = ck.read_result(out5)
+    if dd["own"] != "granted":
+        raise Infra("dot-dot leg: u4 cannot fetch the stream it has the right for (%s)" % dd["own"])
+    for h in dd["hits"]:
+        ck.violation("C11:dot-dot-path-authorised-as-written:" + h.split(" fetched ")[1].split(" ")[0], h, dd)
     ck.assumptions += ["entry points exercised: RTSP play / publish (Digest), RTSP-over-WebSocket play / publish, HTTP-FLV, WebSocket-FLV, HLS playlist, HLS segment, WSP (control + data socket), management API",
                        "paths /a/x, /b/y (pull) and /a/p, /b/p (push); rights from {'', *, /a/*, /b/*, /a/x} x {'', /a/*, /b/p}; u1 varies, adm and u2 are static",
                        "granted = media bytes / 200 / successful RECORD with the stream registered; refused = 401 or 403 (any other outcome is reported as an error and counts as a mismatch)"]
 
 
 META = {
-    "text": "Auth.tla is the reference monitor of the statement over user create/update/delete, login, refresh and expiry; TLC builds the edge cover of its state graph (155 states, 5136 (state, operation) pairs) and emits with every behaviour the decision for every (entry point, user, credential kind, path). The driver replays a seeded sample of the behaviours on the in-process server with authentication on and issues the requests over ten real entry points, comparing granted/refused; a separate leg tries to derive tokens from the session id every RTSP response discloses, another one joins a WSP data socket of a user without rights to the session of a user who is playing (channel ids derived from the attacker's own).",
+    "text": "Auth.tla is the reference monitor of the statement over user create/update/delete, login, refresh and expiry; TLC builds the edge cover of its state graph (155 states, 5136 (state, operation) pairs) and emits with every behaviour the decision for every (entry point, user, credential kind, path). The driver replays a seeded sample of the behaviours on the in-process server with authentication on and issues the requests over ten real entry points, comparing granted/refused; a separate leg tries to derive tokens from the session id every RTSP response discloses, further legs join a WSP data socket of a user without rights to the session of a user who is playing (channel ids derived from the attacker's own), open WebSockets on segment-shaped URLs (/streams/{path}/{n}.ts), and fetch paths whose last segment is '..' under a single-level-wildcard right.",
     "note": "Trusted: TLC, Auth.tla as transcription of the statement, the scripted clients in harness/vclient and harness/c11.",
     "technique": "TLA+ reference monitor; TLC edge cover with per-state decision tables replayed against the real server's entry points",
     "specs": ["auth"],
